@@ -784,7 +784,8 @@ class Not(Logical, Prefix):
 
     @property
     def factors(self: 'Not') -> 'dsl.Predicate.Factors':
-        return self.operand.factors
+        # the negation of a predicate over a single table is itself the (only) factor - never the un-negated operand
+        return Predicate.Factors(self) if len({f.origin for f in Column.dissect(self)}) == 1 else Predicate.Factors()
 
 
 class Comparison(Predicate):
